@@ -277,7 +277,7 @@ func (r *udRun) note(n int, cfg udCfg, what string, err error) {
 	r.stat("note", 1)
 }
 
-func (r *udRun) one(n int, cfg udCfg, users, pings, burst int) {
+func (r *udRun) one(n int, cfg udCfg, users, pings, burst int, expire bool) {
 	r.sink.Reset("scenario", "udp", "n", n, "cfg", cfg)
 	r.stat("cfg", 1)
 	r.mu.Lock()
@@ -462,6 +462,13 @@ func (r *udRun) one(n int, cfg udCfg, users, pings, burst int) {
 		return
 	}
 	light("light1", pings)
+	if expire {
+		// the client closes a user's local socket after 30 s without a reply; the next datagram gets a new one
+		r.sink.Emit("drv", "ud.phase", "name", "idle-31s", "light", false)
+		time.Sleep(31 * time.Second)
+		light("light-after-expiry", pings/2+1)
+		r.stat("expiry", 1)
+	}
 	// tiny datagrams (shorter than the header; the content byte names the user)
 	r.sink.Emit("drv", "ud.phase", "name", "tiny", "light", false)
 	for _, u := range us {
@@ -561,6 +568,7 @@ func udpCmd(args []string) int {
 	burst := fs.Int("burst", 60, "datagrams per user in the burst phase")
 	packet := fs.Int("packet", 0, "force this udpPacketSize")
 	only := fs.Int("only", 0, "run only this configuration number")
+	expire := fs.Int("expire", 1, "configurations that include the socket idle expiry phase (31 s each)")
 	out := fs.String("out", "udp.ndjson", "trace output")
 	fs.Parse(args)
 	env.QuietLogs()
@@ -578,7 +586,7 @@ func udpCmd(args []string) int {
 		if *only != 0 && *only != i+1 {
 			continue
 		}
-		r.one(i+1, c, *users, *pings, *burst)
+		r.one(i+1, c, *users, *pings, *burst, i < *expire)
 	}
 	sink.Close()
 	fmt.Printf("STATS traces=%d events=%d", r.stats["cfg"], sink.N)
